@@ -124,6 +124,8 @@ EXTRA_BOUNDED = {
     'c06_csv': {'C07': ['future-rows-irrelevant', 'missing-cell-ffill', 'value-at-latest-observation', 'open-close-boundaries',
                         'row-order-independent', 'no-bar-before-t-gives-nan', 'cache-transparent'],
                 'C18': ['cache-transparent', 'row-order-independent']},
+    # the session module also decides the part of C13 that only a session can show: every scheduled instant is acted upon
+    'c14_session': {'C13': ['rebalances-exactly-scheduled-after-burn-in', 'later-session-in-the-same-process-unaffected']},
 }
 
 
